@@ -1545,6 +1545,9 @@ def shallow_parse_input_query(query_text, input_iterator, tables_registry, query
         query_context.lhs_join_var_expression = lhs_variables[0] if len(lhs_variables) == 1 else '({})'.format(', '.join(lhs_variables))
         query_context.join_map_impl = HashJoinMap(join_record_iterator, rhs_indices)
         query_context.join_map_impl.build()
+        if join_header is not None:
+            # A record without a join partner gets one None per join column even when the join table is empty or its records are shorter than its header
+            query_context.join_map_impl.max_record_len = max(query_context.join_map_impl.max_record_len, len(join_header))
         query_context.join_map = joiner_type(query_context.join_map_impl)
 
     query_context.variables_init_code = combine_string_literals(generate_init_statements(format_expression, input_variables_map, join_variables_map), string_literals)
